@@ -97,6 +97,23 @@ def build(ctx):
         g.trace(f'tr_add_{k}', [('a', 'V6'), ('b', 'V6')], (lambda C: lambda a, b: (C(a) + C(b)).A)(C))
         g.trace(f'tr_sub_{k}', [('a', 'V6'), ('b', 'V6')], (lambda C: lambda a, b: (C(a) - C(b)).A)(C))
         g.trace(f'tr_neg_{k}', [('a', 'V6')], (lambda C: lambda a: (-C(a)).A)(C))
+        def _iadd(C):
+            def f(a, b):
+                x = C(a)
+                x += C(b)
+                assert type(x) is C and len(x) == 1
+                return x.A
+            return f
+
+        def _isub(C):
+            def f(a, b):
+                x = C(a)
+                x -= C(b)
+                assert type(x) is C and len(x) == 1
+                return x.A
+            return f
+        g.trace(f'tr_iadd_{k}', [('a', 'V6'), ('b', 'V6')], _iadd(C))
+        g.trace(f'tr_isub_{k}', [('a', 'V6'), ('b', 'V6')], _isub(C))
         g.trace(f'tr_se3_{k}', [('X', 'M44'), ('a', 'V6')], (lambda C: lambda X, a: (SE3(X, check=False) * C(a)).A)(C),
                 sampler=se3_sampler_with(1))
     # cross products: motion x motion (crm), motion x* force (crf); `@` is the same method
@@ -247,7 +264,10 @@ def judge(ctx, op, category, cell, obs, model, expected, value_ok=None):
         ctx.fail(f'tab:{op}:{category}:wrong-class-or-length', f"{op} on {cell} must give {expected}, got {o3}",
                  {'op': op, 'cell': cell, 'observed': o3, 'expected': expected})
     elif value_ok is not None:
-        ok, detail = value_ok(obs[3])
+        try:
+            ok, detail = value_ok(obs[3])
+        except Exception as ex:  # noqa -- the returned object does not even hold 6-vectors
+            ok, detail = False, f"the result's values cannot be read: {type(ex).__name__}: {ex}"
         if not ok:
             ctx.fail(f'tab:{op}:{category}:wrong-values', f"{op} on {cell}: values are not the element-wise result: {detail}",
                      {'op': op, 'cell': cell, 'detail': detail})
@@ -271,6 +291,7 @@ def tables(ctx):
     im_cells = [(r, n) for r in keys + [None] for n in LENS]
     se_cells = [(c, n) for c in keys for n in LENS]
     terms = [f"(addsub_model {l} {nl} {rname(r)} {nr}, addsub_expected {l} {nl} {rname(r)} {nr})" for l, nl, r, nr in as_cells]
+    terms += [f"(inplace_model {l} {nl} {rname(r)} {nr}, addsub_expected {l} {nl} {rname(r)} {nr})" for l, nl, r, nr in as_cells]
     terms += [f"(neg_model {l} {n}, Some ({l}, {n}))" for l in keys for n in LENS]
     terms += [f"(copy_model {l} {n}, Some ({l}, {n}))" for l in keys for n in LENS]
     terms += [f"(cross_model {l} {rname(r)} {n}, cross_expected {l} {rname(r)} {n})" for l, r, n in cr_cells]
@@ -293,6 +314,37 @@ def tables(ctx):
                        'unequal-length' if nl != nr else 'same-class-equal-length')
                 vok = (lambda res, A=A, B=B, npf=npf: close(columns(res), npf(A, B))) if B is not None and B.shape == A.shape else None
                 judge(ctx, op, cat, f"{l}[{nl}] , {rn}[{nr}]", obs, model, expected, vok)
+    # ---- the in-place forms x += y, x -= y: the table of + and -, the value is the element-wise result; the object the
+    #      name was bound to before must afterwards hold its old values or the result (never anything else)
+    def inplace(op):
+        def f(a, b):
+            z = a
+            if op == 'add':
+                z += b
+            else:
+                z -= b
+            return z
+        return f
+    for l, nl, r, nr in as_cells:
+        model, expected = nxt()
+        rights = [(r,) + mk(r, nr, rng)] if r is not None else [(nm, f(), None) for nm, f in NOTSV]
+        for rn, y, B in rights:
+            for op, npf in (('add', np.add), ('sub', np.subtract)):
+                x, A = mk(l, nl, rng)
+                obs = observe(lambda: inplace(op)(x, y))
+                cat = ('non-spatial-operand' if r is None else 'mixed-class' if r != l else
+                       'unequal-length' if nl != nr else 'same-class-equal-length')
+                vok = (lambda res, A=A, B=B, npf=npf: close(columns(res), npf(A, B))) if B is not None and B.shape == A.shape else None
+                judge(ctx, 'inplace-' + op, cat, f"{l}[{nl}] {'+=' if op == 'add' else '-='} {rn}[{nr}]", obs, model, expected, vok)
+                try:
+                    after = columns(x) if type(x).__name__ in NAME else None
+                except Exception:  # noqa -- the object now holds something that is not a 6-vector
+                    after = None
+                ok_alias = after is not None and (close(after, A)[0] or (B is not None and B.shape == A.shape and close(after, npf(A, B))[0]))
+                if not ok_alias:
+                    ctx.fail(f'tab:inplace-{op}:{cat}:left-object-corrupted', f"after {l}[{nl}] {'+=' if op == 'add' else '-='} {rn}[{nr}] the object "
+                             f"the name was bound to holds neither its old values nor the result (length {None if after is None else after.shape[1]})",
+                             {'op': 'inplace-' + op, 'cell': f"{l}[{nl}] , {rn}[{nr}]"})
     for l in keys:
         for n in LENS:
             model, expected = nxt()
@@ -365,6 +417,13 @@ def tables(ctx):
                 what = ('raises-' + obs[1]) if obs[0] == 'Raise' else obs[1] if obs[0] == 'Value' else 'returns-' + obs[1]
                 ctx.fail(f"tab:iadd:{'inertia+inertia' if flag else 'inertia+other'}:{what}",
                          f"SpatialInertia + {rn}: expected {es}, the implementation {what}", {'op': 'iadd', 'right': rn, 'observed': o_s, 'expected': es})
+    Jc = SpatialInertia(2.0, [0.1, -0.2, 0.3], np.diag([1.0, 2.0, 3.0]))
+    Jc += J2
+    ctx.case(('tab', 'inertia-inplace-add'))
+    ctx.count('tab:inertia-inplace-add')
+    if not (isinstance(Jc, SpatialInertia) and len(Jc) == 1 and close(Jc.A, np.asarray(J.A, float) + np.asarray(J2.A, float), 1e-13)[0]):
+        ctx.fail('tab:inertia-inplace-add:inertia+inertia:wrong-result', "I += J is not the SpatialInertia holding the matrix sum",
+                 {'op': 'inertia-inplace-add', 'length': len(Jc) if hasattr(Jc, '__len__') else None})
     assert next(it, None) is None
 
     # ---- multi-valued LEFT operand of cross (self.A is a list): not supported; an exception or the element-wise
@@ -693,6 +752,11 @@ def forms(ctx):
 HIST_HDR = "From Coq Require Import List Arith.\nFrom SM Require Import Model.C20_Inertia.\nImport ListNotations.\n"
 
 
+def operator_imul(a, b):
+    a *= b
+    return a
+
+
 def histories(ctx):
     rng = ctx.rng
     keys = list(CLS)
@@ -784,6 +848,15 @@ def histories(ctx):
                 check('add', lambda: x + y, cur + B, k, last)
                 check('sub', lambda: x - y, cur - B, k, last)
                 check('radd', lambda: y + x, B + cur, k, last)
+                def _ip(add):
+                    z = C(x)
+                    if add:
+                        z += y
+                    else:
+                        z -= y
+                    return z
+                check('inplace-add', lambda: _ip(True), cur + B, k, last)
+                check('inplace-sub', lambda: _ip(False), cur - B, k, last)
                 check('rsub', lambda: y - x, B - cur, k, last)
                 j = int(rng.integers(n))
                 check('index-se3mul', lambda: T * x[j], Mx @ cur[:, j:j + 1], k, last)
@@ -798,7 +871,7 @@ def histories(ctx):
             n = len(x)
             choices = ['append', 'extend', 'insert', 'reverse', 'clear+append']
             if n >= 1:
-                choices += ['setitem', 'setitem', 'pop', 'del']
+                choices += ['setitem', 'setitem', 'pop', 'del', 'inplace-add', 'inplace-sub']
             kind = choices[int(rng.integers(len(choices)))]
             if kind == 'setitem':
                 j = int(rng.integers(n)); (t,), A = fresh()
@@ -821,6 +894,24 @@ def histories(ctx):
                 del x[j]; muts.append(f"MDel {j}"); hist.append(f"del x[{j}]")
             elif kind == 'reverse':
                 x.reverse(); muts.append("MReverse"); hist.append("x.reverse()")
+            elif kind in ('inplace-add', 'inplace-sub'):
+                # x += y / x -= y rebinds x to the element-wise result: the list model is closed for the segment so far and
+                # restarted on the tags of the new values
+                cur = columns(x)
+                B = fresh(n)[1]
+                coq_terms.append(f"run [{'; '.join(map(str, t0))}]%nat [{'; '.join(muts)}]%nat")
+                coq_expect.append((tags_of(x), list(hist), A0.T.tolist(), C.__name__))
+                new = cur + B if kind == 'inplace-add' else cur - B
+                if kind == 'inplace-add':
+                    x += obj_of(B)
+                else:
+                    x -= obj_of(B)
+                hist.append(f"x {'+=' if kind == 'inplace-add' else '-='} {C.__name__}({B.T.tolist()} as columns)")
+                t0 = []
+                for j in range(n):
+                    pool.append(new[:, j].copy()); t0.append(len(pool) - 1)
+                muts = []
+                check('inplace-step-result', lambda: x, new, k, kind)
             else:
                 (t,), A = fresh()
                 x.clear(); x.append(C(A[:, 0].copy())); muts += ["MClear", f"MAppend {t}"]; hist.append(f"x.clear(); x.append({C.__name__}({A[:, 0].tolist()}))")
@@ -838,10 +929,9 @@ def histories(ctx):
         if v.replace(' ', '') != want.replace(' ', ''):
             ctx.fail('hist:value-list:model-differs', f"after the history {hist} the object holds the values tagged {tags}, the model `run` gives {v}",
                      {'class': cn, 'initial_values': A0, 'history': hist, 'implementation_tags': tags, 'model': v})
-    # `+=` is UserList.__iadd__ (concatenation), not the element-wise sum: observed, not judged (reported to the maintainers of /verif)
-    a, b = SpatialVelocity([1, 2, 3, 4, 5, 6]), SpatialVelocity([1, 1, 1, 1, 1, 1])
-    a += b
-    ctx.stats['observed:iadd'] = f"len {len(a)} after v += w (element-wise sum would have len 1)"
+    # `v *= 2` (x = x * 2; a spatial vector has no scalar product): observed, not judged
+    obs = observe(lambda: operator_imul(SpatialVelocity([1, 2, 3, 4, 5, 6]), 2))
+    ctx.stats['observed:SpatialVelocity*=2'] = kind_of(obs)
 
 
 def run(ctx):
@@ -863,11 +953,11 @@ def run(ctx):
         ctx.prove('theories/Props/' + f)
     with ctx.timed('correspond'):
         sym_num(ctx, g, MOD, ctx.n(25, 400))
-    with ctx.timed('tables'):
-        tables(ctx)
-    with ctx.timed('histories'):
-        histories(ctx)
-    with ctx.timed('forms'):
-        forms(ctx)
-    with ctx.timed('oracle'):
-        oracle(ctx)
+    import traceback
+    for label, stage in (('tables', tables), ('histories', histories), ('forms', forms), ('oracle', oracle)):
+        with ctx.timed(label):
+            try:
+                stage(ctx)
+            except Exception:  # noqa -- one stage could not complete on this tree: reported, the other stages still run
+                tb = traceback.format_exc()
+                ctx.fail('harness:exception:' + label, f'the {label} stage could not complete on this tree: ' + tb[-1200:], {'traceback': tb}, no_input=True)
